@@ -8,7 +8,8 @@ from .runner import scenario, sim_case, Result
 from .sim import DaemonDied, DaemonExited, Hang, crash_key
 from .workloads import batch_policy, pick_chunks
 
-GROUP_POOL = ["g%02d" % i for i in range(36)]
+# group names are compared exactly: the pool starts with names that differ only in case, by a trailing blank or by being prefixes
+GROUP_POOL = ["ops", "Ops", "op", "OPS", "opsx", "ops "] + ["g%02d" % i for i in range(30)]
 
 
 def token(rng, n=12):
@@ -288,4 +289,83 @@ def credfile_size(case, res):
         if S is not None:
             S.sim.finish(kill=True)
         os.unlink(path)
+        os.rmdir(d)
+
+
+@scenario("lookalike-users")
+def lookalike_users(case, res):
+    """accounts whose names differ only in letter case (or are prefixes of each other): whatever the daemon's idea of name
+    equality is, a password change must only ever touch an ENTRY of the credential file that the actor was entitled to change
+    (its own entry = the one whose password it authenticated with, or any non-read-only entry for an admin entry)"""
+    import crypt as _crypt
+    rng = random.Random(case["seed"])
+    entries = [("admin", dict(admin=True)), ("Admin", {}), ("bob", {}), ("BOB", dict(readonly=True)), ("bo", {}), ("ADMIN", dict(readonly=True, admin=True))]
+    rng.shuffle(entries)
+    pw = {i: token(rng) for i in range(len(entries))}         # entry index -> current clear-text password (unique tokens)
+    cf = crypt_fn(rng)
+    # hand-written JSON: the order of the entries matters and names may look alike
+    body_ = ",".join('%s:%s' % (json.dumps(n), json.dumps(dict({"password": cf(pw[i]), "auth": {"fetchGroups": ["g"], "setGroups": ["g"], "callGroups": ["g"]}}, **fl)))
+                     for i, (n, fl) in enumerate(entries))
+    d = tempfile.mkdtemp(prefix="cjv-cred-")
+    path = os.path.join(d, "passwd.json")
+    with open(path, "w") as fh:
+        fh.write('{"users":{%s}}' % body_)
+
+    def hashes():
+        with open(path) as fh:
+            txt = fh.read()
+        # parse keeping duplicates-by-case apart: names are distinct strings, so a normal parse keeps all of them
+        doc = json.loads(txt)
+        return [doc["users"][n]["password"] for n, _ in entries]
+
+    def b(S, rng2):
+        S.desync = True
+        names = [n for n, _ in entries]
+
+        def ask(c, method, params):
+            c.keep_log = True
+            q = S.request(c, method, params)
+            q.expect_override = "any"
+            S.settle()
+            r = [m for m in c.msglog if isinstance(m, dict) and m.get("id") == q.idv]
+            return bool(r and "result" in r[0])
+        for step in range(case["params"].get("n", 14)):
+            ai = rng.randrange(len(entries))                  # the entry whose password the actor knows
+            login = rng.choice(names) if rng.random() < 0.6 else entries[ai][0]
+            c = S.connect("c%d" % step, rng.choice(["raw", "ws", "uds"]))
+            if c.transport == "ws":
+                S.handshake(c)
+            ok = ask(c, "authenticate", {"user": login, "password": pw[ai]})
+            S.sig("lookalike-auth", login == entries[ai][0], ok)
+            if ok:
+                target = rng.choice(names)
+                new = token(rng)
+                before = hashes()
+                done = ask(c, "passwd", {"user": target, "password": new})
+                after = hashes()
+                changed = [i for i in range(len(entries)) if before[i] != after[i]]
+                S.stats["passwd_requests"] += 1
+                S.stats["passwd_ok"] += 1 if done else 0
+                if len(changed) > 1 or (changed and not done) or (done and not changed):
+                    S.v("authfile/answer-and-file-disagree", "passwd %r by entry %d (%r) logged in as %r: answered %s, entries changed %r" % (target, ai, entries[ai][0], login, done, changed))
+                for i in changed:
+                    fl_a, fl_t = entries[ai][1], entries[i][1]
+                    allowed = (i == ai and not fl_t.get("readonly")) or (fl_a.get("admin") and not fl_t.get("readonly"))
+                    if not allowed:
+                        S.v("authz/entry-changed-by-unauthorised-account", "entry %d (%r, %r) changed by the holder of entry %d (%r, %r) logged in as %r, passwd for %r" %
+                            (i, entries[i][0], fl_t, ai, entries[ai][0], fl_a, login, target))
+                    if _crypt.crypt(new, after[i]) != after[i]:
+                        S.v("authfile/changed-entry-does-not-hold-the-new-password", "entry %d" % i)
+                    pw[i] = new
+            S.end(c, "eof")
+            S.settle()
+        st = S.close_all()
+        S.check_idle_baseline(st, heap=False)
+        S.shutdown()
+        return [[n for n, _ in entries]]
+    try:
+        sim_case(case, res, b, session_kw=dict(args=("-f", "-p", path)))
+    finally:
+        for f in os.listdir(d):
+            os.unlink(os.path.join(d, f))
         os.rmdir(d)
